@@ -11,6 +11,9 @@ import StunVerif.Props.SrcFnIter
 #print axioms StunVerif.SrcFnPolice.src_comprehensionRequired
 #print axioms StunVerif.SrcFnPolice.any_eq_contains
 #print axioms StunVerif.SrcFnPolice.src_checkAttributeTypes
+#print axioms StunVerif.SrcFnPolice.method_lt
+#print axioms StunVerif.SrcFnPolice.src_unknownAttributes_fields
+#print axioms StunVerif.SrcFnPolice.src_badRequest_fields
 #print axioms StunVerif.SrcFnIter.drop_drop_len
 #print axioms StunVerif.SrcFnIter.iterGo_succ_ok
 #print axioms StunVerif.SrcFnIter.iterGo_succ_err
